@@ -44,6 +44,7 @@ type OriginCall struct {
 	Host       string
 	Path       string
 	RawQuery   string
+	URI        string
 	Header     http.Header
 	Body       []byte
 	Rid        string
@@ -211,6 +212,7 @@ func (e *Env) proxy(name string, c *elton.Context) error {
 		Host:     req.Host,
 		Path:     req.URL.Path,
 		RawQuery: req.URL.RawQuery,
+		URI:      req.URL.RequestURI(),
 		Header:   req.Header.Clone(),
 		Body:     body,
 		Rid:      req.Header.Get("X-Verif-Rid"),
@@ -229,6 +231,9 @@ func (e *Env) proxy(name string, c *elton.Context) error {
 		return resp.Err
 	}
 	h := c.Header()
+	if resp.Status != 304 {
+		h.Set("X-Self", fmt.Sprintf("%d|%s|%s|%s", call.Serial, call.Method, call.Host, call.URI))
+	}
 	for k, vs := range resp.Header {
 		for _, v := range vs {
 			h.Add(k, v)
@@ -322,11 +327,7 @@ func (e *Env) Do(r Req) *Result {
 
 // SelfBody is the self-identifying body of the fake origin.
 func SelfBody(c *OriginCall, payload string) []byte {
-	q := c.Path
-	if c.RawQuery != "" {
-		q += "?" + c.RawQuery
-	}
-	return []byte(fmt.Sprintf("%d|%s|%s|%s|%s", c.Serial, c.Method, c.Host, q, payload))
+	return []byte(fmt.Sprintf("%d|%s|%s|%s|%s", c.Serial, c.Method, c.Host, c.URI, payload))
 }
 
 // ParseSelf splits a self-identifying body.
